@@ -11,6 +11,7 @@ ENTRIES = {
     "c06sub": ("ParamExp.Entry", "entry_sub"),
     "c06rm": ("ParamExp.Entry", "entry_rm"),
     "c06keys": ("ParamExp.Entry", "entry_keys"),
+    "c06subev": ("ParamExp.Entry", "entry_subev"),
 }
 TRUSTED = [
     "modelled, not verified: brush-core/src/expansion.rs expand_parameter_expr (UseDefault/AssignDefault/IndicateError/"
@@ -31,7 +32,7 @@ ASSUMPTIONS = ["values shorter than 2^63 characters / elements (the `as i64` cas
 
 BASH = "/usr/bin/bash"
 BENV = dict(os.environ, LC_ALL="C.UTF-8", LANG="C.UTF-8")
-PRE = "show() { printf '%s\\0' \"$#\" \"$@\"; }\n"
+PRE = "shopt -s extglob\nshow() { printf '%s\\0' \"$#\" \"$@\"; }\n"
 
 KF_EMPTY = "KF-C06-smallest-empty-match"
 KF_LENB = "KF-C06-length-bytes"
@@ -189,14 +190,31 @@ def canon(status, out):
         return ["FAIL"]
 
 
+def run_group(cmd, timeout=20):
+    """runs a child in its own process group; the whole group is killed on timeout and after completion"""
+    import signal
+    p = subprocess.Popen(cmd, stdin=subprocess.DEVNULL, stdout=subprocess.PIPE, stderr=subprocess.DEVNULL, env=BENV,
+                         start_new_session=True)
+    try:
+        out, _ = p.communicate(timeout=timeout)
+        return p.returncode, out
+    except subprocess.TimeoutExpired:
+        return None, b""
+    finally:
+        try:
+            os.killpg(p.pid, signal.SIGKILL)
+        except OSError:
+            pass
+        try:
+            p.communicate(timeout=5)
+        except Exception:
+            pass
+
+
 def run_bash(scripts, workers=8):
     def one(s):
-        try:
-            p = subprocess.run([BASH, "--norc", "--noprofile", "-O", "extglob", "-c", PRE + s, "brush"], stdout=subprocess.PIPE,
-                               stderr=subprocess.DEVNULL, env=BENV, timeout=20)
-            return canon(p.returncode, p.stdout)
-        except subprocess.TimeoutExpired:
-            return ["TIMEOUT"]
+        rc, out = run_group([BASH, "--norc", "--noprofile", "-O", "extglob", "-c", PRE + s, "brush"])
+        return ["TIMEOUT"] if rc is None else canon(rc, out)
     with ThreadPoolExecutor(workers) as ex:
         return list(ex.map(one, scripts))
 
@@ -208,12 +226,8 @@ def run_bash_tables(items, workers=8):
         if not strs:
             return ""
         body = "".join("[[ %s == %s ]] && printf 1 || printf 0\n" % (q(s), w if w else "''") for s in strs)
-        try:
-            p = subprocess.run([BASH, "--norc", "--noprofile", "-O", "extglob", "-c", body], stdout=subprocess.PIPE,
-                               stderr=subprocess.DEVNULL, env=BENV, timeout=20)
-            return p.stdout.decode()
-        except subprocess.TimeoutExpired:
-            return ""
+        rc, out = run_group([BASH, "--norc", "--noprofile", "-O", "extglob", "-c", body])
+        return "" if rc is None else out.decode()
     with ThreadPoolExecutor(workers) as ex:
         return list(ex.map(one, items))
 
@@ -418,9 +432,6 @@ def non_ascii(s):
 
 def len_known(c, code, spec):
     _, st, r = c
-    ws = words(st, r)
-    if not is_list(r) and ws and non_ascii(ws[0]):
-        return KF_LENB
     if r[0] == "a" and st.kind == "N" and st.nounset:
         return KF_LENNU
     return None
@@ -486,6 +497,59 @@ def gen_sub(ctx):
     return cases
 
 
+EV_EXPRS = [  # (text, value given the counter i before evaluation, increment, errors)
+    ("i++", lambda i: i, 1, False), ("++i", lambda i: i + 1, 1, False), ("i+=10", lambda i: i + 10, 10, False),
+    ("i+=2", lambda i: i + 2, 2, False), ("8/d", lambda i: 0, 0, True), ("1%d", lambda i: 0, 0, True),
+    ("0", lambda i: 0, 0, False), ("1", lambda i: 1, 0, False), ("2", lambda i: 2, 0, False), ("5", lambda i: 5, 0, False),
+    ("9", lambda i: 9, 0, False), ("-1", lambda i: -1, 0, False), ("-2", lambda i: -2, 0, False), ("-9", lambda i: -9, 0, False)]
+
+
+def gen_subev(ctx):
+    """evaluation order / skipping of the offset and length expressions: side effects on i, errors (d=0)"""
+    rng = ctx.rng
+    cases = []
+    sts = [(State("S", "abc"), ("n",)), (State("S", ""), ("n",)), (State("N"), ("n",)), (State("S", "aé日b"), ("n",)),
+           (State("I", [(0, "p"), (1, "q")]), ("a", False)), (State("I", []), ("a", False)), (State("N"), ("a", True)),
+           (State("S", "v", args=["p", "q"]), ("g", False)), (State("S", "v", args=[]), ("g", True)),
+           (State("N", nounset=True), ("n",)), (State("S", "v", args=["p"]), ("p", 1)), (State("S", "v", args=[]), ("p", 2))]
+    for st, r in sts:
+        for o in EV_EXPRS:
+            for l in [None] + EV_EXPRS:
+                if ctx.quick and rng.random() < 0.55:
+                    continue
+                cases.append(("subev", st, r, o, l))
+    return cases
+
+
+def subev_operands(c):
+    _, st, r, o, l = c
+    i = 0
+    ov = o[1](i)
+    i2 = i + o[2]
+    res = [(ov, o[3], o[2])]
+    if l is not None:
+        res.append((l[1](i2), l[3], l[2]))
+    return res
+
+
+def subev_script(c):
+    _, st, r, o, l = c
+    ot = o[0] if o[0][0] not in "-+" else " " + o[0]     # ":-" / ":+" would be the conditional operators
+    e = "${%s:%s%s}" % (ref_text(r), ot, "" if l is None else ":" + l[0])
+    return "i=0 d=0\n" + st.setup() + 'show "%s"\nprintf \'S%%s\\0\' "$?"\nshow A "$i"\n' % e
+
+
+def subev_fields(c):
+    _, st, r, o, l = c
+    ops = subev_operands(c)
+    f = st.fields() + ref_fields(r) + [str(ops[0][0]), "1" if ops[0][1] else "0", str(ops[0][2])]
+    if l is None:
+        f += ["0", "0", "0", "0"]
+    else:
+        f += ["1", str(ops[1][0]), "1" if ops[1][1] else "0", str(ops[1][2])]
+    return f
+
+
 def sub_script(c):
     _, st, r, o, l = c
     ot = o[0] if not o[0].startswith("-") else " " + o[0]
@@ -499,13 +563,7 @@ def sub_fields(c):
 
 
 def sub_known(c, code, spec):
-    _, st, r, o, l = c
-    if l is not None and l[1] < 0:
-        return KF_SUBNEG
-    ws = words(st, r)
-    if not is_list(r) and ws and non_ascii(ws[0]):
-        return KF_SUBB
-    return None
+    return None     # KF-C06-substring-negative-length / -bytes are fixed: any deviation is a violation
 
 
 # removal -----------------------------------------------------------------------------------------
@@ -548,7 +606,7 @@ def rand_pattern(rng, ws):
         elif x < 0.85:
             pieces.insert(pos, ("Q", rng.choice(["*", "?", "a", " ", "[", "é"])))
         else:
-            pieces.insert(pos, ("P", rng.choice(["[a-c]", "[!a]", "[[:alpha:]]", "[[:space:]]", "*(a|b)", "?(é)", "@(b|a)", "+([a-z])"])))
+            pieces.insert(pos, ("P", rng.choice(["[a-c]", "[!a]", "[[:alpha:]]", "[[:space:]]", "*(a|b)", "?(é)", "@(b|a)", "+([a-z])", "@(a|ab)", "+(a|ab)", "*(a|ab)", "!(a)"])))
     return pieces
 
 
@@ -642,6 +700,10 @@ def spec_remove(op, m, s):
     return s[:ks[0]] if ks else s
 
 
+OVERLAP = ["@(foo|foobar)", "@(a|ab)", "@(ab|a)", "+(a|ab)", "*(a|ab)", "?(a|ab)", "!(a)", "!(ab)", "@(a|ab)*", "*@(b|ab)",
+           "@(a|ab)b", "+(a|ab)b", "*(b|ab|a)", "!(a|ab)", "@(.gz|.tar.gz)", "*@(.gz|.tar.gz)"]
+
+
 def gen_rm(ctx):
     cases = []
     rng = ctx.rng
@@ -671,6 +733,13 @@ def gen_rm(ctx):
         for p in epats:
             for op in ("#", "##", "%", "%%"):
                 cases.append(("rm", State("S", v), ("n",), op, [("P", ch) if ch in "*?" else ("L", ch) for ch in p]))
+    # extglob with overlapping alternatives: the longest/shortest match is not the first alternative that matches
+    for v in ["foobar.tar.gz", "ab", "aab", "abab", "aba", "a", ""]:
+        for pw in OVERLAP:
+            for op in ("#", "##", "%", "%%"):
+                if ctx.quick and rng.random() < 0.4:
+                    continue
+                cases.append(("rm", State("S", v), ("n",), op, [("P", pw)]))
     for st in (State("I", [(0, "abc"), (1, ""), (2, "cab")]), State("S", "v", args=["ab", "ba"])):
         for r in (("a", False), ("a", True), ("g", False), ("g", True)):
             for op in ("#", "##", "%", "%%"):
@@ -706,16 +775,6 @@ def rm_strings(c):
     return out
 
 
-def rm_known(c, code, spec, empty_matches):
-    _, st, r, op, pieces = c
-    ws = words(st, r) or []
-    if op in ("#", "%") and empty_matches:
-        return KF_EMPTY
-    if any("\n" in w for w in ws):
-        return KF_MLINE
-    return None
-
-
 # ---------------------------------------------------------------- the check
 
 def trivial(c, spec):
@@ -727,7 +786,7 @@ def trivial(c, spec):
         return c[1].kind in ("N", "U")
     if fam == "len":
         return words(c[1], c[2]) is None
-    if fam == "sub":
+    if fam in ("sub", "subev"):
         return words(c[1], c[2]) is None
     if fam == "rm":
         ws = words(c[1], c[2])
@@ -743,7 +802,8 @@ def evaluate(ctx, cases, with_model=True):
     scripts, fields = [], []
     for c in cases:
         fam = c[0]
-        scripts.append({"cond": cond_script, "len": len_script, "sub": sub_script, "rm": rm_script, "keys": keys_script}[fam](c))
+        scripts.append({"cond": cond_script, "len": len_script, "sub": sub_script, "rm": rm_script, "keys": keys_script,
+                        "subev": subev_script}[fam](c))
     code_in = []
     for c, s in zip(cases, scripts):
         if c[0] == "rm":
@@ -755,16 +815,18 @@ def evaluate(ctx, cases, with_model=True):
     rm_idx = [i for i, c in enumerate(cases) if c[0] == "rm"]
     btabs = dict(zip(rm_idx, run_bash_tables([(pat_word(cases[i][4]), rm_strings(cases[i])) for i in rm_idx])))
     recs = []
-    by_entry = {"c06cond": [], "c06len": [], "c06sub": [], "c06rm": [], "c06keys": []}
+    by_entry = {"c06cond": [], "c06len": [], "c06sub": [], "c06rm": [], "c06keys": [], "c06subev": []}
     for i, c in enumerate(cases):
         fam = c[0]
         rec = {"case": c, "script": scripts[i], "code": code[i][0], "bash": bash[i], "bits": code[i][1], "runs": []}
         if fam == "cond":
             by_entry["c06cond"].append((i, cond_fields(c), 2, "main"))
         elif fam == "len":
-            by_entry["c06len"].append((i, len_fields(c), 3, "main"))
+            by_entry["c06len"].append((i, len_fields(c), 2, "main"))
         elif fam == "sub":
-            by_entry["c06sub"].append((i, sub_fields(c), 3, "main"))
+            by_entry["c06sub"].append((i, sub_fields(c), 2, "main"))
+        elif fam == "subev":
+            by_entry["c06subev"].append((i, subev_fields(c), 2, "main"))
         elif fam == "keys":
             by_entry["c06keys"].append((i, len_fields(c), 2, "main"))
         else:
@@ -777,18 +839,18 @@ def evaluate(ctx, cases, with_model=True):
                 for s_, b in zip(strs, bits):
                     tab += [s_, "1" if b == "1" else "0"]
                 rec["empty_matches_code"] = ("" in strs and bits[strs.index("")] == "1") if bits else False
-                by_entry["c06rm"].append((i, base + ["t", str(len(strs))] + tab, 3, "main"))
+                by_entry["c06rm"].append((i, base + ["t", str(len(strs))] + tab, 2, "main"))
                 bb = btabs.get(i, "")
                 rec["bash_bits"] = bb
                 if len(bb) == len(strs):
                     tab2 = []
                     for s_, b in zip(strs, bb):
                         tab2 += [s_, b]
-                    by_entry["c06rm"].append((i, base + ["t", str(len(strs))] + tab2, 3, "bashtab"))
+                    by_entry["c06rm"].append((i, base + ["t", str(len(strs))] + tab2, 2, "bashtab"))
                     rec["empty_matches_bash"] = ("" in strs and bb[strs.index("")] == "1")
                 mp = pat_mini(pieces)
                 if mp is not None:
-                    by_entry["c06rm"].append((i, base + ["g", mp], 3, "mini"))
+                    by_entry["c06rm"].append((i, base + ["g", mp], 2, "mini"))
         recs.append(rec)
     if with_model:
         for entry, lst in by_entry.items():
@@ -817,7 +879,6 @@ def judge(recs):
             continue
         parts = runs["main"]["parts"]
         cur, spec = parts[0], parts[-1]
-        rep = parts[1] if len(parts) == 3 else None
         desc = {"family": fam, "script": rec["script"]}
         pyspec = None
         kid = None
@@ -830,7 +891,7 @@ def judge(recs):
             if tables_differ:
                 stats["rm_matcher_tables_differ"] += 1
             if "bashtab" in runs:
-                spec = runs["bashtab"]["parts"][2]
+                spec = runs["bashtab"]["parts"][1]
             mp = pat_mini(c[4])
             if mp is not None and ws is not None:
                 exp = [spec_remove(c[3], lambda t_: mini_match(mp, t_), w) for w in ws]
@@ -838,30 +899,22 @@ def judge(recs):
                 pyspec = ["OK", str(len(exp))] + exp + ["0"]
                 if "mini" in runs:
                     stats["mini_runs"] += 1
-                    if runs["mini"]["parts"][2] != pyspec:
+                    if runs["mini"]["parts"][1] != pyspec:
                         raise core.CheckBroken("Coq oracle (mini glob) and python oracle disagree on %r: %r vs %r"
-                                               % (rec["script"], runs["mini"]["parts"][2], pyspec))
-            em = rec.get("empty_matches_bash", rec.get("empty_matches_code", False))
-            if pyspec is not None:
-                em = mini_match(mp, "")
+                                               % (rec["script"], runs["mini"]["parts"][1], pyspec))
+            # only OPEN classes are attributed; the fixed ones (empty match with # / %, multi-line anchors) are not
+            # excused any more: a deviation there is a plain violation
             if tables_differ:
-                kid = KF_MLINE if any("\n" in w for w in (ws or [])) else KF_MATCH
-            elif c[3] in ("#", "%") and em:
-                kid = KF_EMPTY
+                kid = KF_MATCH
         elif fam == "cond":
             kid = cond_known(c, code, spec)
         elif fam == "len":
             kid = len_known(c, code, spec)
-        elif fam == "keys":
-            kid = None
         else:
-            kid = sub_known(c, code, spec)
-        # ---- tie: code vs model of the unchanged code
+            kid = None
+        # ---- tie: code vs model
         if code != cur:
-            if kid and rep is not None and code == rep:
-                stale[kid] = stale.get(kid, 0) + 1          # repaired upstream: the code follows the repaired model
-            else:
-                mism.append(dict(desc, code=code, model=cur, repaired_model=rep, known_class=kid))
+            mism.append(dict(desc, code=code, model=cur, known_class=kid))
         # ---- spec validation against bash
         if bash == spec:
             stats["spec_eq_bash"] += 1
@@ -940,7 +993,7 @@ def explore(ctx):
 
 
 def run(ctx):
-    cases = gen_cond(ctx) + gen_len(ctx) + gen_sub(ctx) + gen_rm(ctx) + gen_keys(ctx)
+    cases = gen_cond(ctx) + gen_len(ctx) + gen_sub(ctx) + gen_subev(ctx) + gen_rm(ctx) + gen_keys(ctx)
     recs = evaluate(ctx, cases)
     mism, specv, bashdis, stale, stats = judge(recs)
     # extraction cross-check
@@ -1008,7 +1061,7 @@ def search(ctx, res):
     ctx.rng = random.Random(ctx.seed + 7)
     ctx.quick = False
     try:
-        cases = gen_rm(ctx) + gen_sub(ctx) + gen_cond(ctx) + gen_len(ctx)
+        cases = gen_rm(ctx) + gen_sub(ctx) + gen_subev(ctx) + gen_cond(ctx) + gen_len(ctx)
     finally:
         ctx.rng, ctx.quick = save
     recs = evaluate(ctx, cases, with_model=ctx.runner is not None)
@@ -1036,9 +1089,7 @@ def code_vs_bash(recs):
             elif c[0] == "rm":
                 bb, strs = rec.get("bash_bits"), rm_strings(c)
                 if bb and len(bb) == len(rec["bits"]) and bb != rec["bits"]:
-                    kid = KF_MLINE if any("\n" in w for w in (words(c[1], c[2]) or [])) else KF_MATCH
-                elif c[3] in ("#", "%") and bb and "" in strs and bb[strs.index("")] == "1":
-                    kid = KF_EMPTY
+                    kid = KF_MATCH
             v = {"input": {"family": c[0], "script": rec["script"]},
                  "why": "code %r differs from bash %r (no model available)" % (rec["code"], rec["bash"])}
             if kid:
@@ -1054,7 +1105,7 @@ def code_vs_bash(recs):
 
 
 def run_code_only(ctx):
-    cases = gen_cond(ctx) + gen_len(ctx) + gen_sub(ctx) + gen_rm(ctx) + gen_keys(ctx)
+    cases = gen_cond(ctx) + gen_len(ctx) + gen_sub(ctx) + gen_subev(ctx) + gen_rm(ctx) + gen_keys(ctx)
     recs = evaluate(ctx, cases, with_model=False)
     return {"evaluations": len(cases), "distinct_nontrivial": len({r["script"] for r in recs}),
             "rule": "code vs bash only (model did not build)", "samples": [],
